@@ -10,6 +10,7 @@ store `objs` represent the history `whole`, one section per (sub-)revision; its 
 import PdfVerif.Lemmas.Xref
 import PdfVerif.Lemmas.XrefBytes
 import PdfVerif.Lemmas.XrefTable
+import PdfVerif.Lemmas.XrefScan
 
 namespace PdfVerif.Props.C02
 
@@ -261,6 +262,53 @@ example : (match tableLoad ([120, 114, 101, 102] ++ (LineEol.cr.bytes ++ (render
       (kwTrailer ++ ([32, 60, 60, 62, 62] ++ (LineEol.cr.bytes ++ [115])))))) 4 with
     | .ok (offs, tpos) => offs == [((1 : Int), (⟨none, 15, 0⟩ : Entry)), (5, ⟨none, 70, 3⟩)] && tpos == 4 + 1 + 69
     | .error _ => false) = true := by decide
+
+
+/-! ## Termination of the line loops, and the body scan -/
+
+/-- `PDFXRef.load` terminates within one iteration per byte: the fuel of the model is never
+the reason for its answer. -/
+theorem C02_table_fuel (data : Bytes) (afterKw : Nat) : tableLoad data afterKw ≠ .error .recursion :=
+  tableLoad_fuel data afterKw
+
+/-- The same for the body scan: beyond `bytes left`, more fuel changes nothing. -/
+theorem C02_fallback_fuel (data : Bytes) (ends : List (Nat × Nat × Val)) (fuel pos : Nat)
+    (offs : List (Int × Entry)) (h : data.length < pos + fuel) :
+    fallbackLoop data ends (fuel + 1) pos offs = fallbackLoop data ends fuel pos offs :=
+  fallbackLoop_fuel data ends fuel pos offs h
+
+/-- `C02_fallback`: for a body made of plain lines and indirect objects whose headers stand at
+line starts (and no other line looks like a header or starts with `trailer`), the body scan
+registers every object at its true offset, in file order, and stops on the `trailer` line. -/
+theorem C02_fallback (ends : List (Nat × Nat × Val)) (items : List Item) (tail : Bytes)
+    (hok : ItemsOK ends 0 items tail)
+    (htail : ∃ l k, takeLine tail = some (l, k) ∧ startsWith l kwTrailer = true) :
+    fallbackLoad (itemsBytes items ++ tail) ends = .ok (scanSpec 0 items [], some (itemsBytes items).length) :=
+  fallbackLoad_items ends items tail hok htail
+
+/-- The header the writer emits (`n g obj` + EOL, any digit widths) is recognised by the cue
+with its own numbers; the EOL-only line between objects is a plain line. -/
+theorem C02_cue_header (w1 w2 n g : Nat) (hw1 : 0 < w1) (hw2 : 0 < w2) (hn : n < 10 ^ w1) (hg : g < 10 ^ w2)
+    (c : UInt8) (t : Bytes) (hc : isWordByte c = false) :
+    matchCue (renderDec w1 n ++ 32 :: (renderDec w2 g ++ 32 :: 111 :: 98 :: 106 :: c :: t)) = some (n, g) :=
+  matchCue_header w1 w2 n g hw1 hw2 hn hg c t hc
+
+/-- Non-vacuity: `%A⏎ 1 0 obj⏎ 7⏎endobj ⏎ 12 0 obj⏎ 8⏎endobj ⏎ trailer⏎` -/
+def exItems : List Item :=
+  [.line [37, 65, 10],
+   .obj 1 0 [49, 32, 48, 32, 111, 98, 106, 10] [55, 10, 101, 110, 100, 111, 98, 106],
+   .line [10],
+   .obj 12 0 [49, 50, 32, 48, 32, 111, 98, 106, 10] [56, 10, 101, 110, 100, 111, 98, 106],
+   .line [10]]
+def exEnds : List (Nat × Nat × Val) := [(3, 19, .plain 1), (20, 37, .plain 2)]
+
+example : ItemsOK exEnds 0 exItems (kwTrailer ++ [10]) := by
+  refine ⟨by decide, by decide, by decide, by decide, by decide, by decide,
+    ⟨.plain 1, by decide, by intro id k t h; cases h⟩, by decide, by decide, by decide,
+    by decide, by decide, by decide, ⟨.plain 2, by decide, by intro id k t h; cases h⟩,
+    by decide, by decide, by decide, trivial⟩
+
+example : scanSpec 0 exItems [] = [((1 : Int), (⟨none, 3, 0⟩ : Entry)), (12, ⟨none, 20, 0⟩)] := by decide
 
 /-! ## Locating `startxref`: independence of the read-buffer size -/
 
